@@ -20,7 +20,7 @@ import (
 	"github.com/elnosh/gonuts/cashu"
 )
 
-var crashProps = []string{"C07", "C15", "C06"}
+var crashProps = []string{"C07", "C15", "C06", "C16"}
 
 func init() {
 	register("mint-crash", crashProps,
@@ -341,6 +341,24 @@ func (e *schedEnv) runCrashPoint(cs crashCase, k int, fault bool) (reached bool,
 		verdict, what = "lost:returned-signatures-not-restorable", "the request was answered with signatures, but after the restart they are not stored (restore returns nothing for them)"
 		c.MonitorFail("C15", fmt.Sprintf("C15/%s/%s/%s/returned-signatures-not-restorable", mode, sigName(cs.name), point),
 			fmt.Sprintf("%s of %s at %s: %s", mode, cs.name, point, what), s.replay())
+	}
+	// C16: the issued view counts every signature a request has ever RETURNED (it may count more: a signature stored
+	// for a request whose answer was lost)
+	{
+		var seen, total uint64
+		for _, sg := range s.sigsSeen {
+			seen += sg.Amount
+		}
+		if iss, err := e.env.M.IssuedEcash(); err == nil {
+			for _, v := range iss {
+				total += v
+			}
+			if total < seen {
+				c.MonitorFail("C16", fmt.Sprintf("C16/%s/%s/%s/issued-view-below-returned-signatures", mode, sigName(cs.name), point),
+					fmt.Sprintf("%s of %s at %s: IssuedEcash reports %d but signatures worth %d have been returned to clients", mode, cs.name, point, total, seen), s.replay())
+			}
+		}
+		e.env.DB.ResetTrace()
 	}
 	ksAfter := s.keysetView()
 	if b.kind != "rotate" {
